@@ -345,6 +345,13 @@ def gen_config(cs, tier='quick', force=None):
     # sometimes a second, independent Monte-Carlo driver process runs at the same time on the same machine (same temp
     # directory, a base input file with the same name in another project directory, its own settings and result file)
     c['second_driver'] = cs.choose(5, 'second_driver') == 4
+    # crash and restart: the very same command was started before and its whole job (driver and workers) was killed at an
+    # arbitrary system call of the driver; what it left behind - a result file without summary, scratch files, a half-written
+    # JSON - is what the run under test starts from (only what had reached the kernel survives)
+    c['crash_restart'] = None
+    if not c['second_driver'] and (cs.choose(6, 'crash_restart') == 5 or force.get('crash_restart')):
+        c['crash_restart'] = 1 + cs.choose(c['iterations'] * 4 + 40, 'crash_at')
+        c['pre_run'] = None
     if c['second_driver']:
         c['pre_run'] = None
         # ...or in the very same project directory, on the very same base input file (own settings and result file)
@@ -372,6 +379,8 @@ def gen_config(cs, tier='quick', force=None):
             sp[i] = [1.0, 2.0, 4.0][cs.choose(3, 'speed')]
     c['speeds'] = sp
     c['pid_gap'] = [0, 0, 7, 40][cs.choose(4, 'pid_gap')]
+    # the driver is called from a process that has other live threads (a service, a notebook kernel, a debugger)
+    c['host_threads'] = [1, 1, 1, 2, 5][cs.choose(5, 'host_threads')]
     c['spelling'] = [0, 0, 1, 2, 3, 4][cs.choose(6, 'spelling')]
     c['out_name'] = ['MC_Result.txt', 'MC_Result.txt', 'mc.result.v2.txt', 'RESULT', 'r.out', 'out.d/res.txt'][cs.choose(6, 'out_name')]
     c['clock0'] = cs.choose(1000, 'clock0s') + cs.choose(1000, 'clock0ms') / 1000.0
@@ -514,7 +523,8 @@ def run_one(payload):
                       stalls={int(k_): v for k_, v in c.get('stalls', {}).items()},
                       clock_jumps=[tuple(x) for x in c.get('clock_jumps', [])],
                       short_write='short_write' in c['faults'], kill_plan=c.get('kill_plan'),
-                      repo_src=REPO_SRC, step_cap=payload.get('step_cap', 300000), capture_copies=True, pid_gap=c.get('pid_gap', 0))
+                      repo_src=REPO_SRC, step_cap=payload.get('step_cap', 300000), capture_copies=True, pid_gap=c.get('pid_gap', 0),
+                      host_threads=c.get('host_threads', 1))
         k = K.Kernel(cs, simcfg, sandbox, run_seed=seed)
         # the run starts at an arbitrary instant of the wall clock (second boundaries fall anywhere)
         k.clock_offset = c.get('clock0', 0.0)
@@ -561,6 +571,24 @@ def run_one(payload):
             from geophires_monte_carlo import MonteCarloRequest
             from geophires_monte_carlo import SimulationProgram
             prog = {'hip': SimulationProgram.HIP_RA_X, 'hipold': SimulationProgram.HIP_RA}.get(c['program'], SimulationProgram.GEOPHIRES)
+            if c.get('crash_restart'):
+                j1 = k.procs[1]
+                j1.kill_at_seam = c['crash_restart']
+
+                def gone():
+                    return j1.state == 'done' and all(w.state == 'done' for pl_ in k.pools if pl_.owner is j1 for w in pl_.workers)
+                k.block(gone, what='until the crashed job is gone')
+                outcome['crashed_job'] = j1.exit_kind
+                if j1.exit_kind == 'killed':
+                    k.probes['restart_after_driver_crash'] += 1
+                    try:
+                        with K._real['open'](out, 'rb') as f0:
+                            left = f0.read()
+                        k.probes['crashed_job_left_%s' % ('rows' if left.count(b'\n') > 1 else 'header_only' if left else 'empty_file')] += 1
+                    except OSError:
+                        k.probes['crashed_job_left_no_file'] += 1
+                # only the run under test is analysed
+                k.marks = {'notes': len(k.notes), 'pools': len(k.pools)}
             if c.get('pre_run'):
                 stg0 = os.path.join(work, 'mc_settings_pre.txt')
                 with K._real['open'](stg0, 'w') as f0:
@@ -650,6 +678,21 @@ def run_one(payload):
             priv_b = K.Priv(np.random.RandomState(c['np_seed_b']).get_state(), _random.Random(c['np_seed_b']).getstate(),
                             work_b, ['mc-driver-b'])
             others = [(parent_b, priv_b)]
+        if c.get('crash_restart'):
+            def crashed_job():
+                from geophires_monte_carlo import SimulationProgram
+                prog = {'hip': SimulationProgram.HIP_RA_X, 'hipold': SimulationProgram.HIP_RA}.get(c['program'], SimulationProgram.GEOPHIRES)
+                try:
+                    if c.get('settings_out'):
+                        from geophires_monte_carlo import MC_GeoPHIRES3
+                        MC_GeoPHIRES3.main(command_line_args=[toy_code if c['program'] == 'toy' else str(prog.code_file_path), inp, stg])
+                    else:
+                        launch(prog, inp, stg, out)
+                except Exception:  # noqa: BLE001  (it may also fail on its own before it is killed)
+                    pass
+            priv_c = K.Priv(np.random.RandomState(c['np_seed'] ^ 0x5A5A).get_state(), _random.Random(c['np_seed'] ^ 0x5A5A).getstate(),
+                            work, ['mc-driver'])
+            others = [(crashed_job, priv_c)]
         fatal = k.run(parent, priv, others)
         tempfile.tempdir = None
         rec['fatal'] = list(fatal) if fatal else None
@@ -959,7 +1002,9 @@ def analyse(rec, c, k, out_path, inp_path, payload, driver=None):
         for t in (missing or [None] * nlost):
             causes[_loss_cause(t, lock_events, lost_buffers, k, tasks_by_id, task_ok)] += 1
         rec['lost_rows'] = dict(causes)
-        expl = ('lock_timeout', 'killed', 'pool_broken')
+        # (a broken pool explains a loss only if the simulator broke it - an injected worker kill; a pool that breaks on its own,
+        # e.g. because the parent cannot unpickle what a failing iteration raised, is the driver's doing)
+        expl = ('lock_timeout',) + (('killed', 'pool_broken') if k.fault_fired.get('kill') else ())
         if strict or any(not cause.startswith(expl) for cause in causes):
             for cause, n in sorted(causes.items()):
                 if strict or not cause.startswith(expl):
